@@ -37,6 +37,9 @@ type stmt struct {
 	kind string
 	text string
 	// selects must not be silently incomplete; metadata listings (SHOW ...) too
+	// expect, when set, is the normalized answer computed by the harness from
+	// the points it loaded (independent of any node's answer).
+	expect string
 }
 
 type dbdef struct {
@@ -77,6 +80,11 @@ func body() {
 	var lp strings.Builder
 	hosts := []string{"a", "b", "c", "d", "e"}
 	n := 1500
+	type loaded struct {
+		m  string
+		ts int64
+	}
+	var points []loaded
 	for k := 0; k < n; k++ {
 		ts := t0 + int64(k)*int64(5*3600*1e9)/int64(n) + int64(g.Intn(1000))
 		h := hosts[g.Intn(len(hosts))]
@@ -86,6 +94,7 @@ func body() {
 			m = "mem"
 		}
 		fmt.Fprintf(&lp, "%s,host=%s,region=%s f=%v,i=%di,s=\"v%d\" %d\n", m, h, reg, float64(g.Intn(4096))/8, g.Intn(1000), k, ts)
+		points = append(points, loaded{m, ts})
 	}
 	for _, d := range dbs {
 		st, b, err := c.Write(0, d.name, "", "all", "ns", []byte(lp.String()))
@@ -93,26 +102,75 @@ func body() {
 			broken(fmt.Sprintf("load %s: %d %s %v", d.name, st, b, err))
 		}
 	}
+	if md, err := c.MetaData(0); err == nil {
+		// layout record: which nodes own nothing in which group (multi-source statements need such coordinators)
+		for _, d := range md.Databases {
+			for _, rp := range d.RetentionPolicies {
+				for _, sg := range rp.ShardGroups {
+					own := map[uint64]bool{}
+					for _, sh := range sg.Shards {
+						for _, o := range sh.Owners {
+							own[o.NodeID] = true
+						}
+					}
+					for _, dn := range c.Datas {
+						if !own[dn.ID] {
+							r.Count("layout_"+d.Name+"_groups_with_a_node_owning_nothing", 1)
+							break
+						}
+					}
+				}
+			}
+		}
+	}
 	tmin, tmax := t0-1, t0+int64(6*3600*1e9)
 	where := fmt.Sprintf("WHERE time >= %d AND time <= %d", tmin, tmax)
 	stmts := []stmt{
-		{"select-raw", "SELECT i FROM cpu " + where + " AND host = 'a'"},
-		{"select-count", "SELECT count(i) FROM cpu " + where},
-		{"select-sum-group-time", "SELECT sum(i) FROM cpu " + where + " GROUP BY time(30m), host fill(none)"},
-		{"select-mean-tags", "SELECT mean(f) FROM mem " + where + " GROUP BY region"},
-		{"select-max", "SELECT max(i), host FROM cpu " + where},
-		{"select-string-selective", "SELECT count(s) FROM cpu " + where + " AND host = 'e' AND region = 'y'"},
-		{"select-regex-source", "SELECT count(i) FROM /.*/ " + where},
-		{"show-measurements", "SHOW MEASUREMENTS"},
-		{"show-tag-keys", "SHOW TAG KEYS"},
-		{"show-tag-values", "SHOW TAG VALUES WITH KEY = host"},
-		{"show-field-keys", "SHOW FIELD KEYS"},
-		{"show-series-cardinality", "SHOW SERIES EXACT CARDINALITY"},
-		{"show-series", "SHOW SERIES"},
+		{"select-raw", "SELECT i FROM cpu " + where + " AND host = 'a'", ""},
+		{"select-count", "SELECT count(i) FROM cpu " + where, ""},
+		{"select-sum-group-time", "SELECT sum(i) FROM cpu " + where + " GROUP BY time(30m), host fill(none)", ""},
+		{"select-mean-tags", "SELECT mean(f) FROM mem " + where + " GROUP BY region", ""},
+		{"select-max", "SELECT max(i), host FROM cpu " + where, ""},
+		{"select-string-selective", "SELECT count(s) FROM cpu " + where + " AND host = 'e' AND region = 'y'", ""},
+		{"select-regex-source", "SELECT count(i) FROM /.*/ " + where, ""},
+		{"show-measurements", "SHOW MEASUREMENTS", ""},
+		{"show-tag-keys", "SHOW TAG KEYS", ""},
+		{"show-tag-values", "SHOW TAG VALUES WITH KEY = host", ""},
+		{"show-field-keys", "SHOW FIELD KEYS", ""},
+		{"show-series-cardinality", "SHOW SERIES EXACT CARDINALITY", ""},
+		{"show-series", "SHOW SERIES", ""},
 	}
 	if !r.Thorough() {
 		// quick: a representative subset of statement kinds
 		stmts = []stmt{stmts[0], stmts[1], stmts[2], stmts[5], stmts[7], stmts[9], stmts[10], stmts[11]}
+	}
+	// Statements with several sources of one database, restricted to one shard
+	// group each: with rf2 on three nodes a group's single shard has two owners,
+	// so for every hour some coordinator owns no shard of the statement's range
+	// and maps everything remotely. Expected counts come from the loaded points.
+	hour := int64(3600 * 1e9)
+	h0 := (t0/hour + 1) * hour
+	nh := 3
+	if !r.Thorough() {
+		nh = 3
+	}
+	for h := 0; h < nh; h++ {
+		lo, hi := h0+int64(h)*hour, h0+int64(h+1)*hour
+		cnt := map[string]int{}
+		for _, p := range points {
+			if p.ts >= lo && p.ts < hi {
+				cnt[p.m]++
+			}
+		}
+		w := fmt.Sprintf("WHERE time >= %d AND time < %d", lo, hi)
+		exp := fmt.Sprintf("#cpu [time count]\n%d %d \n#mem [time count]\n%d %d \n", lo, cnt["cpu"], lo, cnt["mem"])
+		kind := fmt.Sprintf("select-multi-source-h%d", h)
+		if h == 1 {
+			kind = "select-subqueries-h1"
+			stmts = append(stmts, stmt{kind, "SELECT count(i) FROM (SELECT i FROM cpu " + w + "), (SELECT i FROM mem " + w + ") " + w, exp})
+			continue
+		}
+		stmts = append(stmts, stmt{kind, "SELECT count(i) FROM cpu, mem " + w, exp})
 	}
 
 	// ---- reference answers (and agreement of all coordinators without faults)
@@ -133,6 +191,13 @@ func body() {
 					ref[k] = norm
 					if rows == 0 {
 						broken(fmt.Sprintf("reference query %q on %s returns no rows", s.text, d.name))
+					}
+					if s.expect != "" {
+						r.Count("reference_answers_checked_against_loaded_points", 1)
+						if norm != s.expect {
+							r.Violation("C05/fault-free-answer-differs-from-data/"+s.kind, d.name+"/"+s.kind, fmt.Sprintf("%s on %s from node 0 without any fault: the answer differs from the counts of the points that were loaded", s.text, d.name),
+								map[string]interface{}{"statement": s.text, "expected": s.expect, "got": clip(norm)})
+						}
 					}
 				} else if norm != ref[k] {
 					r.Violation("C05/fault-free-coordinators-disagree/"+s.kind, d.name+"/"+s.kind, fmt.Sprintf("%s on %s: node %d answers differently from node 0 without any fault", s.text, d.name, node),
@@ -324,6 +389,44 @@ func body() {
 				break
 			}
 			time.Sleep(200 * time.Millisecond)
+		}
+	}
+	// ---- a coordinator that owns nothing: a data node that joins after all
+	// shard groups exist maps every shard of every statement remotely
+	if nd, err := c.AddData(); err != nil {
+		r.Inconclusive("late-joining data node: " + err.Error())
+	} else {
+		c.WaitMetaIndex(cluster.DefaultWait)
+		late := len(c.Datas) - 1
+		for _, d := range dbs {
+			for _, s := range stmts {
+				caseID := fmt.Sprintf("%s/%s/c%d/late-joiner", d.name, s.kind, late)
+				if !r.Skip(caseID) {
+					r.Eval(1)
+					resp, err := c.Query(late, d.name, s.text, nil)
+					if err != nil {
+						r.Inconclusive(caseID + ": " + err.Error())
+						continue
+					}
+					norm, _, qerr := cluster.Normalize(resp)
+					r.Count("late_joiner_fault_free_queries", 1)
+					if qerr != "" || norm != ref[d.name+"|"+s.kind] {
+						r.Violation("C05/coordinator-owning-no-shard-answers-differently/"+s.kind, caseID, fmt.Sprintf("%s on %s (rf %d) from node %d, which joined after every shard group was created and owns no shard, without any fault: %s", s.text, d.name, d.rf, nd.ID, map[bool]string{true: "error " + qerr, false: "rows differ from the answer of the owners: " + firstDiff(ref[d.name+"|"+s.kind], norm)}[qerr != ""]),
+							map[string]interface{}{"statement": s.text, "database": d.name, "reference": clip(ref[d.name+"|"+s.kind]), "got": clip(norm), "error": qerr})
+						continue
+					}
+					r.Nontrivial(fmt.Sprintf("%s|%s|late-joiner|fault-free", d.name, s.kind))
+				}
+				for target := 0; target < late; target++ {
+					tid := c.Datas[target].ID
+					faultconn.Set(&faultconn.Fault{Node: tid, Mode: "refuse"})
+					run(fmt.Sprintf("%s/%s/c%d/refuse-n%d", d.name, s.kind, late, target), d, s, late, fmt.Sprintf("refuse node %d", tid), true, d.rf >= 2)
+					o := int64(9 + cg.Intn(3000))
+					faultconn.Set(&faultconn.Fault{Node: tid, Mode: "cut", CutAfter: o})
+					run(fmt.Sprintf("%s/%s/c%d/cut%d-n%d", d.name, s.kind, late, o, target), d, s, late, fmt.Sprintf("cut stream from node %d after %d bytes", tid, o), false, d.rf >= 2)
+					faultconn.Set(nil)
+				}
+			}
 		}
 	}
 	c.Close()
